@@ -226,7 +226,8 @@ pub fn generate_project(seed: u64, index: u64) -> Project {
     let mut pool: Vec<&str> = LOCALES.to_vec();
     rng.shuffle(&mut pool);
     let locales: Vec<String> = pool[..n_loc].iter().map(|s| s.to_string()).collect();
-    let namespaces: Option<Vec<String>> = if rng.chance(1, 3) { Some(vec!["common".into(), "page".into()]) } else { None };
+    // (listed in either order: the configuration order need not be the alphabetical one)
+    let namespaces: Option<Vec<String>> = if rng.chance(1, 3) { Some(if rng.chance(1, 2) { vec!["common".into(), "page".into()] } else { vec!["page".into(), "common".into()] }) } else { None };
     let inherits: Option<(String, String)> = if n_loc >= 3 && rng.chance(1, 2) { Some((locales[2].clone(), locales[1].clone())) } else { None };
     let mut files: BTreeMap<String, Vec<u8>> = BTreeMap::new();
     let mut locale_files = vec![];
@@ -263,7 +264,7 @@ pub fn generate_project(seed: u64, index: u64) -> Project {
             locale_files.push(LocaleFile { rel, locale: l.clone(), namespace: ns.clone() });
         }
     }
-    let mut cfg = format!("[package]\nname = \"case\"\nversion = \"0.1.0\"\nedition = \"2021\"\n\n[package.metadata.leptos-i18n]\ndefault = \"{}\"\nlocales = [{}]\n", locales[0], locales.iter().map(|l| format!("\"{l}\"")).collect::<Vec<_>>().join(", "));
+    let mut cfg = format!("[package]\nname = \"case\"\nversion = \"0.1.0\"\nedition = \"2021\"\nauthors = [\"日本 太郎 <taro@example.jp>\", \"Zoë Müller\"]\n# généré — 生成されたプロジェクト\n\n[package.metadata.leptos-i18n]\ndefault = \"{}\"\nlocales = [{}]\n", locales[0], locales.iter().map(|l| format!("\"{l}\"")).collect::<Vec<_>>().join(", "));
     if let Some(n) = &namespaces {
         cfg.push_str(&format!("namespaces = [{}]\n", n.iter().map(|l| format!("\"{l}\"")).collect::<Vec<_>>().join(", ")));
     }
